@@ -26,6 +26,9 @@ CHECKS = {
  "C14": ("exploration", "runtime invariant monitor at provably quiescent points over long mixed histories: client registry size, server stream registry size (accessors under the code's own locks) and goat-goroutine count vs. idle level",
          "Long histories (quick ~10^4, thorough ~5x10^5 RPCs) of all four kinds and 11 outcome classes incl. cancel/deadline at varying points, server resets and opens failing in the transport write, up to 32 at a time on one connection; after every round the state is sampled at a stop-the-world final state and must equal the idle level.",
          "Registry sizes come from verif-tagged accessors; goroutine attribution by stack frames; outcomes are sampled, not enumerated.", "DESIGN.md 2/C14"),
+ "C08": ("exploration", "differential runtime check of the real parser (via verif accessor) against a big.Int reference over an exhaustive small-value grid + boundary grid + seeded random/mutated strings; end-to-end and raw-header deadline monitors on recorded timestamps",
+         "Parser: all 1..4-digit values per unit exhaustively, boundary values for 1..8 digits, overflow thresholds, over-long and ~640 malformed strings, up to 10^7 random values, each compared with an exact saturating reference. End to end and raw-header runs through the real client/server check the handler's deadline against brackets that contain the measured transit time, so load cannot falsify them.",
+         "Over-long (9+ digit) values may be ignored or read exactly (goat's own client needs 11 digits for 10^4 h); timestamps from the process's monotonic clock.", "DESIGN.md 2/C08"),
 }
 NOT_YET = "check not built yet in this round (runtime-monitoring design in DESIGN.md section 2); will be claimed once its monitor exists"
 
